@@ -246,11 +246,12 @@ func c16PrefixSuffixOverlap(p *Prog) *RuleResult {
 // turns that into an ordinary error with checkForUnrepresentableIdentifier, which must therefore
 // see every name that is taken from the source and ends up being printed as an identifier.
 // Decided here for the two shapes that can be judged locally:
-//   (a) (*parser).newSymbol called with the lexer's current identifier text (p.lexer.Identifier)
-//       is dominated by a check of the same text (declareSymbol contains one), unless an equality
-//       test has pinned the text to a constant;
-//   (b) a label symbol (ast.SymbolLabel) — labels are printed verbatim and are created from a name
-//       that no other pass checks — is dominated by a check of its name.
+//
+//	(a) (*parser).newSymbol called with the lexer's current identifier text (p.lexer.Identifier)
+//	    is dominated by a check of the same text (declareSymbol contains one), unless an equality
+//	    test has pinned the text to a constant;
+//	(b) a label symbol (ast.SymbolLabel) — labels are printed verbatim and are created from a name
+//	    that no other pass checks — is dominated by a check of its name.
 func c16UnrepresentableNames(p *Prog) *RuleResult {
 	r := NewRule("C16/R8 unrepresentable-name-check", "a symbol created directly from the lexer's identifier text, and every label symbol, is first passed to checkForUnrepresentableIdentifier (otherwise a non-BMP name reaches the printer and panics on targets without \\u{...} escapes under charset=ascii)")
 	ap := p.ByPath[modPath+"/internal/ast"]
